@@ -175,6 +175,11 @@ class C05System(BuilderSystem):
             # kind is not a *validation* failure either, but still must not be silently ignored
             problems.append(("unexpected-exception-kind", f"{op} raised {exc!r}"))
             return problems
+        if op[0].startswith("trace.") and chunks:
+            # an interpolated path is a sequence of moves, not a single command: when a *later* segment is refused the earlier ones
+            # have been written and tracked, which the statement (single-command calls) does not forbid. Paths refused at their
+            # first segment (nothing written) are judged like every other call.
+            return problems
         after = snapshot(st)
         d = diff(before, after)
         if chunks:
